@@ -263,6 +263,20 @@ def run(chk, replay=None):
                 cells.append({"name": "c%d" % k, "insts": insts})
             cases.append({"src": "rawlib", "cells": cells, "reps": 4 if quick else 8})
         cases.append({"src": "rawlib", "reps": 8, "cells": [{"name": "top", "insts": [1, 2, 3, 4, 5]}] + [{"name": "leaf%d" % k, "insts": []} for k in range(5)]})
+        # cells reachable only through instances (not listed in lib.cells): leaves and inner cells
+        cases.append({"src": "rawlib", "reps": 8, "cells": [{"name": "top", "insts": [1, 2, 3, 4, 5]}] + [{"name": "leaf%d" % k, "insts": [], "listed": False} for k in range(5)]})
+        cases.append({"src": "rawlib", "reps": 8, "cells": [{"name": "top", "insts": [1, 2]}, {"name": "mid1", "insts": [3, 4], "listed": False}, {"name": "mid2", "insts": [4, 3], "listed": False},
+                                                            {"name": "leafa", "insts": [], "listed": False}, {"name": "leafb", "insts": []}]})
+        for _ in range(10 if quick else 100):
+            n = chk.rng.randrange(3, 9)
+            order = list(range(n)); chk.rng.shuffle(order)
+            cells = []
+            for k in range(n):
+                lower = [j for j in range(n) if order[j] < order[k]]
+                cells.append({"name": "u%d" % k, "insts": [chk.rng.choice(lower) for _ in range(chk.rng.randrange(0, 4))] if lower else [], "listed": chk.rng.random() < 0.5})
+            if not any(c["listed"] for c in cells):
+                cells[0]["listed"] = True
+            cases.append({"src": "rawlib", "cells": cells, "reps": 4 if quick else 8})
         # technology protobuf -> layer table (Layers::from_proto): 2..12 major layers in shuffled order, several purposes each
         for _ in range(20 if quick else 200):
             nums = chk.rng.sample(range(0, 200), chk.rng.randrange(2, 13))
